@@ -215,6 +215,22 @@ pub fn gen(out: &mut dyn Write, seed: u64, thorough: bool) {
                 Err(_) => "panic".into(),
             };
             writeln!(out, "P first {} {} => {}", fmt_idx(l), n, ans).unwrap();
+            // the same request with 2n digits (two digits per ASCII codeword): exercises the
+            // early "bigger than the theoretical limit" exit against the capacity table
+            let data = vec![b'7'; 2 * n];
+            let sl2 = sl.clone();
+            let r = guarded(move || {
+                DataMatrixBuilder::new()
+                    .with_symbol_list(sl2)
+                    .with_encodation_types(EncodationType::Ascii)
+                    .encode(&data)
+            });
+            let ans = match r {
+                Ok(Ok(dm)) => size_index(dm.size).to_string(),
+                Ok(Err(_)) => "none".into(),
+                Err(_) => "panic".into(),
+            };
+            writeln!(out, "P first {} {} => {}", fmt_idx(l), n, ans).unwrap();
         }
     }
     let _ = SymbolSize::Square10;
